@@ -123,7 +123,7 @@ impl J {
 }
 
 /// The mutation menu. `NAMES[i]` documents mutation `i`.
-pub const MUT_NAMES: [&str; 30] = [
+pub const MUT_NAMES: [&str; 33] = [
   "delete",
   "null",
   "true",
@@ -154,6 +154,9 @@ pub const MUT_NAMES: [&str; 30] = [
   "\"did:iota:0x00..00\" (placeholder IOTA DID)",
   "string with NUL, quote, backslash, non-BMP",
   "\"#\"",
+  "rename the member's key (one character appended)",
+  "rename the member's key (last character dropped)",
+  "rename the member's key (case of the first letter flipped)",
 ];
 pub const N_MUT: usize = MUT_NAMES.len();
 
@@ -272,6 +275,31 @@ pub fn mutate(root: &mut J, path: &[usize], m: usize) -> bool {
     27 => replace(root, J::Str(format!("did:iota:0x{}", "0".repeat(64)))),
     28 => replace(root, J::Str("a\u{0}\"\\\u{1F600}\u{FFFD}".into())),
     29 => replace(root, J::Str("#".into())),
+    30..=32 => {
+      // a misspelt member name: the member stays where it is (and keeps its value) under another key
+      let Some((&last, parent_path)) = path.split_last() else { return false };
+      let Some(J::Obj(o)) = root.get_mut(parent_path) else { return false };
+      let Some((k, _)) = o.get_mut(last) else { return false };
+      match m {
+        30 => k.push('x'),
+        31 => {
+          if k.chars().count() < 2 {
+            return false;
+          }
+          k.pop();
+        }
+        _ => {
+          let mut cs = k.chars();
+          let Some(f) = cs.next() else { return false };
+          let flipped: String = if f.is_lowercase() { f.to_uppercase().collect() } else { f.to_lowercase().collect() };
+          if flipped == f.to_string() {
+            return false;
+          }
+          *k = flipped + cs.as_str();
+        }
+      }
+      true
+    }
     _ => false,
   }
 }
@@ -1207,10 +1235,10 @@ pub fn generate(ctx: &Ctx) {
   // pairs (thorough): the second mutation ranges over the value-replacing and structural mutations that are
   // cheap to parse; the long-string and deep-nest mutations stay first-only.
   // quick: pairs too, with a reduced menu for the second mutation.
-  let pair_mutations: Vec<usize> = if ctx.quick() { vec![0, 1, 13, 17] } else { (0..N_MUT).filter(|m| ![22usize, 26].contains(m)).collect() };
+  let pair_mutations: Vec<usize> = if ctx.quick() { vec![0, 1, 13, 17, 31] } else { (0..N_MUT).filter(|m| ![22usize, 26].contains(m)).collect() };
   run_json_sweeps(ctx, "json: from_json entry points", &sweeps, true, &pair_mutations);
   ctx.sample("json", &In::S(SEED_STATUS_RB).case("Status::from_json"));
-  ctx.bound("json_mutation_menu", MUT_NAMES);
+  ctx.bound("json_mutation_menu", &MUT_NAMES[..]);
   ctx.bound("json_mutation_depth", ctx.by_tier("all single mutations + all ordered pairs at two different nodes with the second mutation from a menu of 4 (delete, null, \"did:ex:%+4\", {})", "all single mutations + all ordered pairs at two different nodes (second mutation: 28 of the 30)"));
 
   // Duration: the complete boundary product of (seconds, nanoseconds)
